@@ -162,6 +162,9 @@ func (r *run) checkSettled(when string) {
 type upstream struct{ r *run }
 
 func (u upstream) RoundTrip(req *http.Request) (*http.Response, error) {
+	if err := req.Context().Err(); err != nil {
+		return nil, err // a real transport does not send a request whose context is already done
+	}
 	raw, _ := io.ReadAll(req.Body)
 	req.Body.Close()
 	var msg pb.RawMessageV2
